@@ -92,6 +92,49 @@ class Engine(ExprMixin, CallMixin, BuiltinMixin, ApplyMixin, StmtMixin, _Base):
         rep["obligations"] = len(self.obligations) - n0
         return rep
 
+    def param_frame_obligations(self, fi: FuncInfo, c, fr: Frame):
+        """Guard of assumption S5 (containers have value semantics): a container passed as an argument must not be mutated in place
+        by the callee, because the caller's view of it would change behind the caller's contract.  One obligation per container
+        parameter, decided on the source: no augmented assignment, mutator call, item store or item deletion through the parameter
+        name (unless the name is plainly re-bound first somewhere in the function, or the contract declares `mutates`)."""
+        from .apply import MUTATORS
+        a = fi.node.args
+        allowed = set(c.opts.get("mutates", []) or [])
+        immut = {"int", "str", "bool", "float", "tuple", "Tuple", "bytes", "frozenset", "FrozenSet", "type", "Type", "Callable", "Pattern", "Path"}
+        rebound = set()
+        for n in ast.walk(fi.node):
+            if isinstance(n, ast.Assign):
+                for t in n.targets:
+                    for x in ast.walk(t):
+                        if isinstance(x, ast.Name) and isinstance(x.ctx, ast.Store):
+                            rebound.add(x.id)
+            elif isinstance(n, (ast.AnnAssign, ast.For, ast.comprehension)):
+                for x in ast.walk(n.target):
+                    if isinstance(x, ast.Name):
+                        rebound.add(x.id)
+        for x in a.args + a.kwonlyargs:
+            p = x.arg
+            if p in ("self", "cls") or p in allowed or p in rebound:
+                continue
+            ann = ast.unparse(x.annotation).split("[")[0].split(".")[-1].strip("'\"") if x.annotation is not None else ""
+            srt = c.sorts.get(p, "")
+            if ann in immut or srt in ("int", "str", "bool", "float", "tuple", "class") or srt.startswith("obj:"):
+                continue
+            sites = []
+            for n in ast.walk(fi.node):
+                if isinstance(n, ast.AugAssign) and isinstance(n.target, ast.Name) and n.target.id == p:
+                    sites.append(f"line {n.lineno}: {ast.unparse(n)[:60]}")
+                elif isinstance(n, ast.Call) and isinstance(n.func, ast.Attribute) and isinstance(n.func.value, ast.Name) and n.func.value.id == p \
+                        and n.func.attr in MUTATORS:
+                    sites.append(f"line {n.lineno}: {ast.unparse(n)[:60]}")
+                elif isinstance(n, (ast.Assign, ast.AugAssign, ast.Delete)):
+                    tg = n.targets if not isinstance(n, ast.AugAssign) else [n.target]
+                    for t in tg:
+                        if isinstance(t, ast.Subscript) and isinstance(t.value, ast.Name) and t.value.id == p:
+                            sites.append(f"line {n.lineno}: {ast.unparse(n)[:60]}")
+            self.emit("frame", f"frame.argument_not_mutated.{p}", [], z3.BoolVal(not sites), fr, fi.lineno,
+                      ("argument container mutated in place: " + "; ".join(sites)) if sites else f"no in-place mutation of argument {p}", None)
+
     def initial_state(self, fi: FuncInfo, c, fr: Frame) -> St:
         v = self.voc
         st = St()
@@ -147,6 +190,7 @@ class Engine(ExprMixin, CallMixin, BuiltinMixin, ApplyMixin, StmtMixin, _Base):
             snap[cl.name] = self.eval_clause_value(cl, st, spec_fr)
         entry = st.copy()
         fr.entry_state = entry
+        self.param_frame_obligations(fi, c, fr)
         is_gen = any(isinstance(n, (ast.Yield, ast.YieldFrom)) for n in ast.walk(fi.node))
         outs = self.exec_block(fi.node.body, st, fr)
         outs += fr.pending
